@@ -385,17 +385,28 @@ def rule_projector(rep: Report, repo: Repo):
                 rep.note(f"{slot} not overridden (SciPy default in terms of the other slots)")
             continue
         params = [x.arg for x in f.args.args if x.arg != "self"]
-        rets = [n for n in own_nodes(f) if isinstance(n, ast.Return)]
-        if len(params) != 1 or len(rets) != 1:
-            raise AnalysisError(RULE, f"{f.name}: expected one parameter and one return")
+        if len(params) != 1:
+            raise AnalysisError(RULE, f"{f.name}: expected one parameter")
         env = {params[0]: v, "self._vecs": R, "self._left_vecs": L}
-        from .resolve import env_at as _env_at, resolved as _resolved
-        got = ld.Den(env, RULE).ev(_resolved(rets[0].value, _env_at(rets[0], f, keep_params=True)))
-        if got == want:
-            rep.ok(RULE, f"{CLS}.{slot} -> {f.name} denotes {txt}", f"`{norm(rets[0].value)}` = {ld.show(got)}", loc(f))
-        else:
-            rep.fail(RULE, f"{CLS}.{slot} -> {f.name} `{norm(rets[0].value)}` denotes {ld.show(got)}",
-                     f"SciPy contract: {slot} must compute {txt} = {ld.show(want)} with P = 1 - R.L^H", loc(f))
+        # every path of the slot (the operand may be dense or sparse) is evaluated to one expression and denoted
+        from .straight import run as _run
+        results = {}
+        for is_sparse in (False, True):
+            def atom(n, is_sparse=is_sparse):
+                if isinstance(n, ast.Call) and call_name(n) in ("sparse.issparse", "issparse") and len(n.args) == 1 and norm(n.args[0]) == params[0]:
+                    return is_sparse
+                if isinstance(n, ast.Call) and call_name(n) == "isinstance" and norm(n.args[0]) == params[0] and norm(n.args[1]) == "np.ndarray":
+                    return not is_sparse
+                return None
+            t = _run(f, atom, RULE)
+            results[norm(t)] = t
+        for ttxt, t in results.items():
+            got = ld.Den(env, RULE).ev(t)
+            if got == want:
+                rep.ok(RULE, f"{CLS}.{slot} -> {f.name} denotes {txt}", f"`{ttxt[:90]}` = {ld.show(got)}", loc(f))
+            else:
+                rep.fail(RULE, f"{CLS}.{slot} -> {f.name} `{ttxt[:90]}` denotes {ld.show(got)}",
+                         f"SciPy contract: {slot} must compute {txt} = {ld.show(want)} with P = 1 - R.L^H", loc(f))
     # -- adjoint / conjugate / transpose objects ------------------------------------------
     # dtype-dependent branches: which of R, L are real arrays (conj(X) = X for a real X)
     uses_dtype = any("iscomplexobj" in norm(n) or "isrealobj" in norm(n) for meth in METHOD_OP for n in ast.walk(m.resolve(meth) or ast.Pass())
